@@ -169,6 +169,52 @@ def check(run):
                f"{m}: runtime float tableau differs from the rational reading by more than 1 ulp")
         except Exception as e:
             run.oblig(f"link:get_tableau:float_equals_rational:{m}", fn, "B(bounded)", "undecided", detail=repr(e))
+    # ---- delivery: the tableau an EvolveConfig hands to the integrators (whatever options it was built with) has the order it advertises.
+    # Closed check on the float object (exact rational arithmetic on the doubles, tolerance 2^-40): a configuration that reshapes the table must keep rows and orders together.
+    try:
+        from renormalizer.utils.configs import EvolveConfig, EvolveMethod
+        for m in method_list:
+            for adaptive in (False, True):
+                oid = f"link:EvolveConfig:delivered_tableau_has_its_advertised_order:{m}:adaptive={adaptive}"
+                try:
+                    cfg = EvolveConfig(EvolveMethod.prop_and_compress_tdrk, adaptive=adaptive, rk_solver=m)
+                except Exception as e:
+                    run.oblig(oid, "EvolveConfig.__init__", "B(bounded)", "discharged", "closed check", detail=f"combination rejected: {type(e).__name__}")
+                    continue
+                rk = cfg.rk_config
+                fa, fb, fc = rk.tableau
+                fa = [[Fraction(float(x)) for x in row] for row in np.asarray(fa)]
+                fb = [[Fraction(float(x)) for x in row] for row in np.asarray(fb).reshape(-1, len(fa))]
+                fc = [Fraction(float(x)) for x in np.asarray(fc).reshape(-1)]
+                s_ = len(fa)
+                tol = Fraction(1, 2 ** 40)
+                bad = None
+                if len(fb) != len(tuple(rk.order)) or rk.stage != s_ or len(fc) != s_:
+                    bad = f"{len(fb)} weight rows, orders {tuple(rk.order)}, stage {rk.stage}, {s_} rows of a, {len(fc)} nodes"
+                else:
+                    for i in range(s_):
+                        if abs(sum(fa[i], Fraction(0)) - fc[i]) > tol:
+                            bad = f"node c[{i}] = {float(fc[i])} is not the row sum {float(sum(fa[i], Fraction(0)))}"
+                            break
+                    for r, p_ in enumerate(rk.order):
+                        if bad:
+                            break
+                        for n_ in range(1, int(p_) + 1):
+                            for t in trees_of_order(n_):
+                                lhs = sum((fb[r][i] * ph for i, ph in enumerate(phi(t, fa, s_))), Fraction(0))
+                                if abs(lhs - Fraction(1, gamma(t))) > tol:
+                                    bad = f"row {r} (advertised order {p_}) misses the order-{n_} condition of tree {tree_str(t)} by {float(lhs - Fraction(1, gamma(t))):.3e}"
+                                    break
+                            if bad:
+                                break
+                run.oblig(oid, "EvolveConfig.__init__", "B(bounded)", "discharged" if not bad else "violated", "closed check")
+                if bad:
+                    run.violation(oid, "EvolveConfig.__init__", f"EvolveConfig(prop_and_compress_tdrk, adaptive={adaptive}, rk_solver={m!r}).rk_config: {bad}",
+                                  fields={"method": m, "adaptive": adaptive},
+                                  replay={"method": m, "adaptive": adaptive, "order": [int(x) for x in rk.order], "b": [[float(x) for x in row] for row in fb],
+                                          "replay": "python: EvolveConfig(EvolveMethod.prop_and_compress_tdrk, adaptive=%r, rk_solver=%r).rk_config.tableau / .order" % (adaptive, m)})
+    except Exception as e:
+        run.oblig("link:EvolveConfig:delivered_tableau_has_its_advertised_order", "EvolveConfig.__init__", "B(bounded)", "undecided", detail=repr(e)[:300])
     if n_cond < 90:
         run.crash(f"vacuity: only {n_cond} order conditions generated (expected 94)")
     run.extra["order_conditions_generated"] = n_cond
